@@ -466,7 +466,7 @@ fn shadow_mount(s: &mut Sess, op: &Op, img: &Image) {
             Err(e) => return Err(format!("read_status_flags on a copy failed: {:?}", e)),
         };
         let walk = if s.cfg.on("C04") { lib_walk(s, &fs2, true) } else { None };
-        std::mem::forget(fs2);
+        drop(fs2);
         Ok((fl.dirty(), walk))
     }));
     match r {
@@ -552,8 +552,11 @@ fn check_stamps(s: &mut Sess, op: &Op, k: usize, old: Option<&Stamps>, new: &Sta
         return None;
     }
     if s.renamed == Some(k) {
-        let body_same = old.raw.len() != 32 || new.raw.len() != 32 || old.raw[11..] == new.raw[11..];
-        if !new.same_stamps(old) || !body_same {
+        // with access-date updates enabled a directory that lies on the operation's own path is read (and stamped)
+        let atime_dir = is_dir && s.cfg.update_accessed;
+        let body_same = old.raw.len() != 32 || new.raw.len() != 32 || (11..32).all(|i| old.raw[i] == new.raw[i] || (atime_dir && (i == 18 || i == 19)));
+        let stamps_same = if atime_dir { let mut o2 = old.clone(); o2.adate = new.adate; new.same_stamps(&o2) } else { new.same_stamps(old) };
+        if !stamps_same || !body_same {
             return Some(("rename-changed-entry", format!("{}: rename changed more than the name: entry {} -> {}", path, crate::util::hex(&old.raw), crate::util::hex(&new.raw))));
         }
         return None;
